@@ -551,6 +551,18 @@ func verifT3OmitEmpty() {
 	bits := v.Uint64("scalar")
 	var val, back interface{}
 	switch os.Getenv("VERIF_T3_TYPE") {
+	case "omit_string":
+		type T struct {
+			A string `json:"a,omitempty"`
+		}
+		n := int(v.Uint64("strlen"))
+		val, back = T{strings.Repeat("s", n)}, &T{}
+	case "omit_bytes":
+		type T struct {
+			A []byte `json:"a,omitempty"`
+		}
+		n := int(v.Uint64("byteslen"))
+		val, back = T{[]byte(strings.Repeat("s", n))}, &T{}
 	case "omit_float64":
 		type T struct {
 			A float64 `json:"a,omitempty"`
